@@ -189,7 +189,7 @@ def panic_sites(body, feas=None):
                 if hit:
                     yield b, hit, (ci.get("resolved") or ci["fn"])
         elif t["k"] == "assert":
-            m = t["msg"]
+            m = t["msg"].split("{")[0].split("(")[0].strip()
             kind = {"BoundsCheck": "bounds-assert", "Overflow": "overflow-assert", "OverflowNeg": "overflow-assert",
                     "DivisionByZero": "div-assert", "RemainderByZero": "div-assert"}.get(m, "assert-" + m)
             yield b, kind, t["msg_full"][:80]
